@@ -496,12 +496,28 @@ def _dt_date(v):
     return SymDate(f[0], f[1], f[2])
 
 
+def _fixed_local_offset_us():
+    """UTC offset of the process-local zone in microseconds if it cannot depend on the date: TZ is a POSIX zone without a
+    daylight rule (EST+5, IST-5:30, UTC0), or the process runs on plain UTC; None otherwise"""
+    import os, re, time
+    tz = os.environ.get("TZ")
+    if tz is not None and re.fullmatch(r"[A-Za-z]{3,}[+-]?\d{1,2}(:\d\d)?", tz) and not time.daylight:
+        return -time.timezone * US
+    if tz in (None, "UTC") and time.timezone == 0 and not time.daylight and time.tzname[0] == "UTC":
+        return 0
+    return None
+
+
 def _astimezone(v, tz=None):
     if tz is None:
         raise Unsupported("astimezone() to local zone")
     ue = utc_epoch(v)
     if ue is None:
-        raise Unsupported("astimezone on naive value")
+        # a naive value is taken as process-local time; modelled when the local zone has one constant offset
+        lo = _fixed_local_offset_us()
+        if lo is None:
+            raise Unsupported("astimezone on naive value (local zone with a date-dependent offset)")
+        ue = dt_epoch(v) - lo
     return SymDT(epoch=z3.simplify(ue + tz_offset_us(tz)), tz=tz)
 
 
